@@ -235,6 +235,8 @@ func main() {
 		}
 		sb.WriteString(fmt.Sprintf("Definition %s %s : string := %s.\n", name, strings.Join(sig, " "), t.expr(ret.Results[0], params)))
 	}
+	constsSrc, cerrs := numericConsts(*repo)
+	t.errs = append(t.errs, cerrs...)
 	if len(t.errs) > 0 {
 		fmt.Println("go2v: cannot translate pkg/model path builders:")
 		for _, e := range t.errs {
@@ -255,6 +257,106 @@ func main() {
 		}
 		fmt.Println("go2v: wrote", dst)
 	}
+	dst = filepath.Join(*out, "Consts.v")
+	old, _ = os.ReadFile(dst)
+	if string(old) != constsSrc {
+		if err := os.WriteFile(dst, []byte(constsSrc), 0o644); err != nil {
+			fmt.Println("go2v:", err)
+			os.Exit(1)
+		}
+		fmt.Println("go2v: wrote", dst)
+	}
+}
+
+// numeric constants the models depend on: file, name, Coq name. A constant that cannot be found or is not an
+// integer literal (or a product of an integer literal and time.Second / time.Minute, read in seconds) is an error.
+var wantedConsts = [][3]string{
+	{"pkg/core/bundle_pack.go", "defaultBundleEntriesPerFile", "defaultBundleEntriesPerFile"},
+	{"pkg/wal/wal.go", "maxEntriesPerList", "walMaxEntriesPerList"},
+	{"pkg/wal/wal.go", "GetExpirationDuration", "walExpirationSeconds"},
+	{"pkg/fuse/fs.go", "firstINode", "fuseFirstINode"},
+}
+
+func intValue(e ast.Expr) (int64, bool) {
+	switch x := e.(type) {
+	case *ast.BasicLit:
+		if x.Kind == token.INT {
+			v, err := strconv.ParseInt(x.Value, 0, 64)
+			return v, err == nil
+		}
+	case *ast.ParenExpr:
+		return intValue(x.X)
+	case *ast.SelectorExpr:
+		if pkg, ok := x.X.(*ast.Ident); ok && pkg.Name == "time" {
+			switch x.Sel.Name {
+			case "Second":
+				return 1, true
+			case "Minute":
+				return 60, true
+			case "Hour":
+				return 3600, true
+			}
+		}
+	case *ast.BinaryExpr:
+		a, ok1 := intValue(x.X)
+		b, ok2 := intValue(x.Y)
+		if ok1 && ok2 {
+			switch x.Op {
+			case token.MUL:
+				return a * b, true
+			case token.ADD:
+				return a + b, true
+			}
+		}
+	}
+	return 0, false
+}
+
+func numericConsts(repo string) (string, []string) {
+	var sb strings.Builder
+	var errs []string
+	sb.WriteString("(* GENERATED by harness/cmd/go2v from /repo - do not edit. *)\nFrom Coq Require Import Arith.\n\n")
+	for _, w := range wantedConsts {
+		fset := token.NewFileSet()
+		f, err := parser.ParseFile(fset, filepath.Join(repo, w[0]), nil, 0)
+		if err != nil {
+			errs = append(errs, err.Error())
+			continue
+		}
+		found := false
+		for _, d := range f.Decls {
+			switch x := d.(type) {
+			case *ast.GenDecl:
+				if x.Tok != token.CONST {
+					continue
+				}
+				for _, sp := range x.Specs {
+					vs := sp.(*ast.ValueSpec)
+					for i, nm := range vs.Names {
+						if nm.Name == w[1] && i < len(vs.Values) {
+							if v, ok := intValue(vs.Values[i]); ok {
+								sb.WriteString(fmt.Sprintf("Definition %s : nat := %d. (* %s: %s *)\n", w[2], v, w[0], w[1]))
+								found = true
+							}
+						}
+					}
+				}
+			case *ast.FuncDecl:
+				if x.Name.Name == w[1] && x.Body != nil && len(x.Body.List) == 1 {
+					if ret, ok := x.Body.List[0].(*ast.ReturnStmt); ok && len(ret.Results) == 1 {
+						if v, ok := intValue(ret.Results[0]); ok {
+							sb.WriteString(fmt.Sprintf("Definition %s : nat := %d. (* %s: %s returns a duration, in seconds *)\n", w[2], v, w[0], w[1]))
+							found = true
+						}
+					}
+				}
+			}
+		}
+		if !found {
+			errs = append(errs, "numeric constant not found or not translatable: "+w[0]+" "+w[1])
+		}
+	}
+	return sb.String(), errs
 }
 
 func isStringExpr(e ast.Expr, t *tr) bool {
